@@ -31,7 +31,7 @@ RULE = (
     "(method is not Identity) and at least one string or stream is non-empty."
 )
 COMPONENTS_REAL = ["pdfminer.pdfdocument (PDFStandardSecurityHandler, V4, V5, _initialize_password, getobj/decipher_all)", "pdfminer.arcfour", "pdfminer.pdftypes.PDFStream.decode", "pdfminer._saslprep", "pdfminer.high_level.extract_text"]
-COMPONENTS_STUB = ["file object: io.BytesIO over SimWriter output", "encrypting producer: sim.crypt (own RC4, key derivation, AES via cryptography)", "BUFSIZ chunk seam", "cache eviction wrapper"]
+COMPONENTS_STUB = ["file object: io.BytesIO over SimWriter output", "encrypting producer: sim.crypt (own RC4, key derivation, AES via cryptography)", "BUFSIZ chunk seam", "cache eviction wrapper", "pdftypes.zlib: proxy that fails one decompress() with MemoryError when armed (transient allocation fault), the real module otherwise"]
 ASSUMPTIONS = [
     "the cross-reference stream object of the encrypted file is not part of 'the original' (it is a container the writer adds)",
     "revision-5/6 passwords are limited to strings on which SASLprep reduces to NFKC; R<=4 *correct* passwords are Latin-1",
